@@ -153,14 +153,16 @@ def decide(pid, mod, tier, seed, m, wall, write_evidence=True):
             dk = (v["monitor"], json.dumps(v.get("key"), sort_keys=True, default=repr))
             unlisted.setdefault(dk, []).append(v)
     for key, vs in sorted(known_seen.items()):
-        lines.append(f"KNOWN-FINDING: property={pid} {key} {known[(pid, key)]['what']} (seen {len(vs)}x this run)")
+        lines.append(f"KNOWN-FINDING: property={pid} {key} {known[(pid, key)].get('short') or known[(pid, key)]['what']} (seen {len(vs)}x this run)")
     viol_lines = []
     for dk, vs in list(unlisted.items())[:20]:
         v = vs[0]
         path = replay_path(pid, v)
         with open(path, "w") as fh:
             json.dump({"property": pid, "tier": tier, "seed": seed, **v}, fh, indent=1, sort_keys=True, default=repr)
-        viol_lines.append(f"VIOLATION property={pid} replay={path}")
+        ln = f"VIOLATION property={pid} replay={path}"
+        if ln not in viol_lines:
+            viol_lines.append(ln)
         sys.stderr.write(f"  [{v['monitor']}] key={v.get('key')} detail={json.dumps(v['detail'], default=repr)[:600]}\n")
 
     # ---- inconclusive? -------------------------------------------------------------------
